@@ -119,6 +119,8 @@ def apply(I, st, inst, node, nidx, callee, args, term, dty, line):
         E("LAYOUT_NEW", size=as_poly(args[0]), align=as_poly(args[1]), checked=False)
         return ("layout", as_poly(args[0]), as_poly(args[1]), "unchecked")
     if path in ("core::alloc::Layout::from_size_align",):
+        # the constructor validates (size <= isize::MAX rounded to align); how the Err is handled is visible at the unwrap / match
+        E("LAYOUT_NEW", size=as_poly(args[0]), align=as_poly(args[1]), checked=True, at="constructor")
         return ("layout_res", as_poly(args[0]), as_poly(args[1]))
     if path in ("core::alloc::Layout::array",):
         return ("layout_res", Poly.atom(("SIZEOF", ty_str(garg(I, inst, callee, 0)))) * as_poly(args[0]), Poly.atom(("ALIGNOF", ty_str(garg(I, inst, callee, 0)))))
@@ -279,6 +281,8 @@ def apply(I, st, inst, node, nidx, callee, args, term, dty, line):
         if op:
             E("ARITH", op=op, a=as_poly(args[0]), b=as_poly(args[1]), checked=True, how=name)
             return ("checked", op, as_poly(args[0]), as_poly(args[1]))
+        if name == "checked_div":
+            return ("checked", "Div", as_poly(args[0]), as_poly(args[1]))
     if path.startswith("core::num::<impl usize>::saturating_"):
         op = {"saturating_add": "Add", "saturating_sub": "Sub", "saturating_mul": "Mul"}.get(name)
         E("ARITH", op=op, a=as_poly(args[0]), b=as_poly(args[1]), checked=True, how=name)
@@ -310,6 +314,21 @@ def apply(I, st, inst, node, nidx, callee, args, term, dty, line):
                 return ("layout", v[1], v[2], "checked")
         E("UNWRAP", of=h(v))
         return I.wrap(("unwrap", h(v)), dty)
+    if path == "core::option::Option::<T>::unwrap_or":
+        v = args[0]
+        if isinstance(v, tuple) and v and v[0] == "some":
+            return v[1]
+        if isinstance(v, tuple) and v and v[0] == "none":
+            return args[1]
+        if isinstance(v, tuple) and v and v[0] == "checked" and v[1] == "Div":
+            # a / b when b != 0, the fallback otherwise
+            from .interp import implies
+            if implies(st.facts, ("ne0", v[3])):
+                return I.arith("Div", v[2], v[3])
+            if implies(st.facts, ("eq0", v[3])):
+                return args[1]
+            return I.wrap(("div_or", v[2], v[3], h(args[1])), dty)
+        return I.wrap(("optop", name, h(args)), dty)
     if path in ("core::option::Option::<T>::map_or", "core::option::Option::<T>::is_some", "core::option::Option::<T>::is_none",
                 "core::option::Option::<T>::map", "core::option::Option::<T>::ok_or", "core::option::Option::<T>::is_some_and"):
         return I.wrap(("optop", name, h(args)), dty)
